@@ -86,14 +86,22 @@ func Verif_C07_split_exact() {
 
 const c07Denom2 = "uatom"
 
-func verifC07Sender2(ctx sdk.Context) *vestingtypes.ContinuousVestingAccount {
+func verifC07Sender2(ctx sdk.Context, delegated bool) *vestingtypes.ContinuousVestingAccount {
 	ov1 := verif_int_range("OV1", "1", "1e30")
 	ov2 := verif_int_range("OV2", "1", "1e30")
 	base := W.auth.NewAccountWithAddress(ctx, verifAddr(c07From)).(*authtypes.BaseAccount)
 	ov := sdk.NewCoins(sdk.NewCoin(vDenom, ov1), sdk.NewCoin(c07Denom2, ov2))
 	cva := vestingtypes.NewContinuousVestingAccountRaw(vestingtypes.NewBaseVestingAccount(base, ov, c07Start+c07Len), c07Start)
+	// part of the first denomination may be delegated while still vesting (it stays with the sender; only the locked,
+	// undelegated remainder can be moved)
+	dv := sdk.ZeroInt()
+	if delegated {
+		dv = verif_int_range("delegatedVesting", "1", "1e30")
+		verif_assume(dv.LTE(ov1))
+		cva.DelegatedVesting = sdk.NewCoins(sdk.NewCoin(vDenom, dv))
+	}
 	W.auth.SetAccount(ctx, cva)
-	W.bank.fund(verifAddr(c07From), vDenom, ov1.Add(verif_int_range("free1", "0", "1e30")))
+	W.bank.fund(verifAddr(c07From), vDenom, ov1.Sub(dv).Add(verif_int_range("free1", "0", "1e30")))
 	W.bank.fund(verifAddr(c07From), c07Denom2, ov2.Add(verif_int_range("free2", "0", "1e30")))
 	return cva
 }
@@ -104,7 +112,14 @@ func Verif_C07_move() {
 	el := grid[verif_choice("elapsed", len(grid))]
 	ctx := verifCtx(verifUnix(c07Start + el))
 	verifSetParams(k, ctx)
-	sender := verifC07Sender2(ctx)
+	// delegated vesting: before the start of the schedule only (quick tier; the products with a time fraction are slow), and only
+	// for the whole-account move and the two-denomination list
+	which := verif_choice("message", 8)
+	delegated := false
+	if (el < 0 || verif_tier() > 0) && (which == 7 || which == 2) {
+		delegated = verif_choice("delegated", 2) == 1
+	}
+	sender := verifC07Sender2(ctx, delegated)
 	denoms := []string{vDenom, c07Denom2}
 	lockedBefore := sender.LockedCoins(ctx.BlockTime())
 	spendBefore := W.bank.SpendableCoins(ctx, verifAddr(c07From))
@@ -112,7 +127,6 @@ func Verif_C07_move() {
 	lists := [][]string{{vDenom}, {c07Denom2}, {vDenom, c07Denom2}, {c07Denom2, vDenom}, {"unknown", vDenom}, {vDenom, "unknown", c07Denom2}, {c07Denom2, "unknown"}}
 	sel := map[string]bool{}
 	var err error
-	which := verif_choice("message", len(lists)+1)
 	verif_knob("assert_timeout_ms", 120000)
 	if which == len(lists) {
 		sel[vDenom], sel[c07Denom2] = true, true
@@ -122,6 +136,18 @@ func Verif_C07_move() {
 			sel[d] = true
 		}
 		_, err = NewMsgServerImpl(k).MoveAvailableVestingByDenoms(sdk.WrapSDKContext(ctx), &types.MsgMoveAvailableVestingByDenoms{FromAddress: c07From, ToAddress: c07To, Denoms: lists[which]})
+	}
+	anyLocked := false
+	for _, d := range denoms {
+		if sel[d] && lockedBefore.AmountOf(d).IsPositive() {
+			anyLocked = true
+		}
+	}
+	if !anyLocked {
+		// nothing is locked (and undelegated) in any selected denomination: there is nothing to move
+		verif_assert(err != nil, "a move of nothing is refused")
+		verif_reach("move of nothing refused")
+		return
 	}
 	verif_assert(err == nil, "locked coins of the selected denominations can always be moved")
 	if err != nil {
